@@ -5,3 +5,9 @@ import findings_rt as FR
 def C03_rotation_after_comment(case, params):
     import rt
     return FR.rotation_after_comment(case, rt.c03_check)
+
+
+def C03_amp_after_moved_value(case, params):
+    import rt
+    import findings_rt as FR
+    return FR.amp_after_moved_value(case, rt.c03_check)
